@@ -27,6 +27,9 @@ pub const FORCED_ALPHA: f64 = 1.0;
 /// |grad| <= CERT_GRAD * feature scale and every class probability of every sample >= CERT_PROB
 pub const CERT_GRAD: f64 = 1e-10;
 pub const CERT_PROB: f64 = 1e-6;
+/// a non-stationary multinomial result is attributed to the log_sum_exp defect when some training row's
+/// log-sum-exp lies at least this far below the global score maximum (the clamp acts from 34.54 on)
+pub const LSE_DEFECT_REACH: f64 = 30.0;
 /// rows of a multinomial probability matrix sum to one within this
 pub const ROW_SUM_TOL: f64 = 1e-9;
 
@@ -586,6 +589,12 @@ fn fit_multi<C: Lab>(obs: &mut Obs, tag: &'static str, x: &[Vec<f64>], labels: &
                 }
             }
             let deficit_ret = obj.max_row_deficit(&theta);
+            // ... or within reach of it: the clamp acts where a row's log-sum-exp lies more than 34.54 below the global
+            // maximum; a solver that stops at the edge of that region (observed: deficits of 34.6 with the clamp just
+            // inactive) stopped because its trial points beyond the edge return wrong losses
+            if deficit_ret >= LSE_DEFECT_REACH || deficit_opt >= LSE_DEFECT_REACH {
+                lse_defect = true;
+            }
             obs.fail(
                 if lse_defect { "multi:not-stationary:log-sum-exp-global-max" } else { "multi:not-stationary" },
                 format!(
